@@ -46,9 +46,10 @@ def to_steps(seq, waits=None):
     return steps
 
 
-def make_case(seq, fault=None, waits=None, rng_seed=1, lat=None):
+def make_case(seq, fault=None, waits=None, rng_seed=1, lat=None, same_leader=False):
     return {"cfg": {"request_timeout_ms": 400, "retry_backoff_ms": 10, "max_batch_size": 400, "linger_ms": 0},
-            "cluster": {"nodes": 2, "partitions": 2, "txn_coord": 0, "group_coord": 1},
+            "cluster": dict({"nodes": 2, "partitions": 2, "txn_coord": 0, "group_coord": 1},
+                            **({"leaders": [1, 1]} if same_leader else {})),
             "procs": [{"steps": to_steps(seq, waits)}], "kills": [], "faults": [fault] if fault else [],
             "env": [], "marker_delays": [0.0], "lat": lat or [0.001], "chunks": [0], "rng_seed": rng_seed,
             "seq": list(seq), "run_for": 30.0}
@@ -249,6 +250,26 @@ def enum_cases(shard, nshards, maxlen):
             i += 1
 
 
+PARTIAL_SEQS = [["begin", "send0", "send1", "commit"], ["begin", "send1", "send0", "commit"],
+                ["begin", "send0", "send1", "abort"], ["begin", "send0", "send1", "send0", "commit"],
+                ["begin", "send0", "send1", "commit", "begin", "send0", "commit"],
+                ["begin", "send0", "send1", "offsets", "commit"], ["begin", "send1", "send0", "pause", "commit", "begin"]]
+
+
+def partial_fault_cases(shard, nshards):
+    """Both partitions on one leader, sends not awaited: their batches travel in one ProduceRequest whose FIRST
+    partition is answered with a fatal produce-level code while the others succeed."""
+    i = 0
+    for seq in PARTIAL_SEQS:
+        for code in (45, 47):
+            for k in (0, 1):
+                for lat in ([0.001], [0.005], [0.0005, 0.005]):
+                    i += 1
+                    if i % nshards == shard:
+                        yield make_case(seq, {"sel": "produce", "k": k, "act": "error_first", "code": code}, waits=[0],
+                                        rng_seed=3, lat=lat, same_leader=True)
+
+
 def strategy():
     from hypothesis import strategies as st
 
@@ -279,13 +300,16 @@ def strategy():
             sel = draw(st.sampled_from(["add_partitions", "add_offsets", "txn_offset_commit", "end_txn", "produce"]))
             codes = [47, 53] if sel != "produce" else [47, 45]
             fault = {"sel": sel, "k": draw(st.integers(0, 2)), "act": "error", "code": draw(st.sampled_from(codes))}
+            if sel == "produce" and draw(st.booleans()):
+                fault["act"] = "error_first"     # only the first partition of the request fails, the others succeed
         elif kind == "retriable":
             sel = draw(st.sampled_from(["add_partitions", "add_offsets", "txn_offset_commit", "end_txn", "produce"]))
             fault = {"sel": sel, "k": draw(st.integers(0, 2)), "act": draw(st.sampled_from(["error", "drop", "apply_drop"])),
                      "code": draw(st.sampled_from([14, 15, 16] if sel != "produce" else [6, 7]))}
         return make_case(seq, fault, waits=draw(st.lists(st.integers(0, 1), min_size=1, max_size=4)),
                          rng_seed=draw(st.integers(0, 2 ** 31)),
-                         lat=draw(st.lists(st.sampled_from([0.0005, 0.001, 0.005]), min_size=1, max_size=3)))
+                         lat=draw(st.lists(st.sampled_from([0.0005, 0.001, 0.005]), min_size=1, max_size=3)),
+                         same_leader=draw(st.booleans()))
     return cases()
 
 
@@ -294,5 +318,7 @@ def campaigns(tier):
     n = 6 if th else 5
     return [Campaign("call_sequences", "enum", execute=execute, cases=lambda s, k: enum_cases(s, k, n),
                      exhaustive=True, setup=TS.setup),
+            Campaign("partial_produce_fault", "enum", execute=execute, cases=partial_fault_cases, exhaustive=True,
+                     setup=TS.setup),
             Campaign("sequence_x_fault", "hyp", execute=execute, strategy=strategy, examples=40000 if th else 2500,
                      setup=TS.setup, max_wall=900 if th else 90, shrink_wall=30)]
